@@ -357,6 +357,93 @@ func (c *gen) otherLink() []byte {
 	return c2.valid()
 }
 
+// quoteOf: the beginning of a probe datagram as an ICMP error message quotes it (RFC 792: the IPv4 header and the
+// first 8 bytes of its payload; newer stacks quote more). The quoted destination is the probed host, an address that
+// differs from the sender of the error message whenever a router or a firewall answers for it.
+func (c *gen) quoteOf() []byte {
+	q := fr.IPOpt{TotalLen: -1, TOS: c.g.U8(), ID: c.g.U16(), FlagsFrag: fr.Pick[uint16](c.g, 0, 0x4000), TTL: 1 + c.g.U8()%64,
+		Proto: fr.Pick[uint8](c.g, 17, 17, 17, 6, 1), Src: c.g.IP4(), Dst: c.g.IP4()}
+	if c.g.R.Intn(5) == 0 {
+		q.Options = []byte{1, 1, 1, 0}
+	}
+	var l4 []byte
+	switch q.Proto {
+	case 17:
+		l4 = fr.UDP(c.g.U16(), c.g.U16(), nil)
+	case 6:
+		l4 = fr.TCP(fr.TCPOpt{Sport: c.g.U16(), Dport: c.g.U16(), Seq: uint32(c.g.R.Uint64()), Flags: 0x02}, nil)[:8]
+	default:
+		l4 = fr.ICMP(8, 0, c.g.U16(), c.g.U16(), nil)
+	}
+	if c.g.R.Intn(4) == 0 {
+		l4 = fr.Cat(l4, c.payload(24)) // stacks that quote more than 8 bytes
+	}
+	if c.g.R.Intn(6) == 0 {
+		q.TotalLen = 28 + c.g.R.Intn(1400) // the probe was longer than what is quoted
+	}
+	return fr.IP(q, l4)
+}
+
+// quoted builds an ICMP error message about a probe, in this link mode. shape: "quoted-full" = the complete quoted
+// IPv4 header (and at least 8 bytes behind it) follows the ICMP header; "quoted-short" = the sender quotes fewer than
+// 20 bytes (nothing, 8 bytes, any number below 20); "quoted-cut" = a complete message that the capture cut inside the
+// quoted IPv4 header (the outer total length claims more than what was captured). All three are well-formed
+// Ethernet/IPv4/ICMP (IPv4/ICMP) chains: the record of each is due, with the fields of that frame.
+func (c *gen) quoted(shape string) []byte {
+	typ := fr.Pick[uint8](c.g, 3, 3, 3, 3, 3, 3, 11, 12, 5, 4)
+	code := uint8(c.g.R.Intn(16))
+	if typ == 3 && c.g.R.Bool() {
+		code = fr.Pick[uint8](c.g, 0, 1, 2, 3, 3, 3, 9, 10, 13)
+	}
+	q := c.quoteOf()
+	o := c.ipo(1)
+	switch shape {
+	case "quoted-short":
+		k := fr.Pick(c.g, 0, 0, 8, 8, 4, 16, 19, c.g.R.Intn(20))
+		return c.l2(0x0800, fr.IP(o, fr.ICMP(typ, code, 0, 0, q[:k])))
+	case "quoted-cut":
+		f := c.l2(0x0800, fr.IP(o, fr.ICMP(typ, code, 0, 0, q)))
+		return fr.Exact(f[:c.l3off()+20+len(o.Options)+8+c.g.R.Intn(20)])
+	}
+	return c.l2(0x0800, fr.IP(o, fr.ICMP(typ, code, 0, 0, q)))
+}
+
+var quotedShapes = []string{"quoted-full", "quoted-full", "quoted-short", "quoted-cut"}
+
+func (c *gen) quotedAny() []byte { return c.quoted(quotedShapes[c.g.R.Intn(len(quotedShapes))]) }
+
+// quotedHistory: histories of ICMP error messages about probes, in the order a scan sees them: a message with a
+// complete quoted header (from a router, about some probed host), later messages of OTHER senders that quote less
+// than an IPv4 header (or were cut there), with replies and unrelated frames in between. Every frame has the header
+// chain, so every frame yields its own record; nothing of an earlier message may show up in a later record.
+func (c *gen) quotedHistory() seq {
+	patterns := [][]string{
+		{"quoted-full", "quoted-short"},
+		{"quoted-full", "quoted-cut"},
+		{"quoted-short", "quoted-full", "quoted-cut"},
+		{"quoted-full", "quoted-full", "quoted-short"},
+		{"quoted-full", "valid", "quoted-short"},
+		{"quoted-full", "junk", "quoted-cut", "quoted-short"},
+		{"quoted-cut", "quoted-full", "quoted-short", "quoted-full"},
+		{"quoted-full", "quoted-short", "quoted-full", "quoted-cut"},
+	}
+	p := patterns[c.g.R.Intn(len(patterns))]
+	var s seq
+	for _, shape := range p {
+		switch shape {
+		case "valid":
+			s.frames = append(s.frames, c.valid())
+		case "junk":
+			s.frames = append(s.frames, c.l2(0x88cc, c.payload(30)))
+		default:
+			s.frames = append(s.frames, c.quoted(shape))
+		}
+		s.classes = append(s.classes, shape)
+	}
+	s.ring = []int{0, 0, 0, 1, 2, 4}[c.g.R.Intn(6)]
+	return s
+}
+
 type family struct {
 	name string
 	w    int
@@ -376,6 +463,7 @@ var families = []family{
 	{"options", 6, (*gen).badOptions},
 	{"ip-length", 6, (*gen).lenField},
 	{"other-link", 8, (*gen).otherLink},
+	{"quoted", 6, (*gen).quotedAny},
 }
 
 func (c *gen) frame() ([]byte, string) {
